@@ -1,37 +1,71 @@
 #!/usr/bin/env python3
-"""Self-tests of the machinery (determinism; see DESIGN.md 2.9).  --quick: smoke."""
+"""Self-tests of the machinery (DESIGN.md 2.9).
+
+determinism: every engine's run digests must be identical
+  * twice under PYTHONHASHSEED=0 (fresh interpreters),
+  * under PYTHONHASHSEED=1 and 2 (nothing may depend on str hashes),
+  * and a whole check must give the same counts with 2 and with 16 workers.
+--quick: 30 runs per engine (part of MANIFEST.setup_cmd); default 300.
+"""
+import json
 import os
 import subprocess
 import sys
 
 HERE = os.path.dirname(os.path.dirname(os.path.abspath(__file__)))
-sys.path.insert(0, HERE)
+PY = "/venv/bin/python" if os.path.exists("/venv/bin/python") else sys.executable
 
 
-def digests(hashseed, n, prop="C04"):
-    code = (
-        "import sys; sys.path.insert(0, %r)\n"
-        "from simkit.runner import history_run\n"
-        "from simkit.world import import_nutree\n"
-        "nt = import_nutree()\n"
-        "for i in range(%d):\n"
-        "    r = history_run(0, %r, i, 'quick', nt=nt)\n"
-        "    print(i, r.digest, len(r.steps))\n" % (HERE, n, prop)
-    )
-    env = dict(os.environ, PYTHONHASHSEED=str(hashseed))
-    py = "/venv/bin/python" if os.path.exists("/venv/bin/python") else sys.executable
-    return subprocess.run([py, "-c", code], env=env, capture_output=True, text=True,
-                          timeout=600).stdout
+def digests(hashseed, n):
+    env = dict(os.environ, PYTHONHASHSEED=str(hashseed), PYTHONDONTWRITEBYTECODE="1")
+    p = subprocess.run([PY, os.path.join(HERE, "tools", "digests.py"), str(n)], env=env,
+                       capture_output=True, text=True, timeout=3600)
+    if p.returncode != 0:
+        print(p.stderr[-2000:])
+        raise SystemExit("SELFTEST FAILED: digests.py crashed")
+    return p.stdout
+
+
+def check_counts(prop, workers, runs):
+    env = dict(os.environ, PYTHONHASHSEED="0", VERIF_WORKERS=str(workers))
+    subprocess.run([os.path.join(HERE, "check"), prop, "--runs", str(runs), "--quiet"], env=env,
+                   capture_output=True, text=True, timeout=3600)
+    with open(os.path.join(HERE, "evidence", f"{prop}.json")) as f:
+        c = json.load(f)["coverage"]
+    return {k: c.get(k) for k in ("evaluations", "distinct_nontrivial", "steps_total",
+                                  "distinct_transitions", "ops_by_kind_outcome", "fault_fired",
+                                  "scheduler_decisions", "distinct_schedules", "commits")}
 
 
 def main():
-    n = 30 if "--quick" in sys.argv else 300
+    quick = "--quick" in sys.argv
+    n = 30 if quick else 300
     a = digests(0, n)
     b = digests(0, n)
     if not a or a != b:
-        print("SELFTEST FAILED: same seed, same hash seed, different digests")
+        print("SELFTEST FAILED: same seed and hash seed, different digests")
         return 1
-    print(f"selftest ok: {n} runs twice, identical digests")
+    lines = len(a.splitlines())
+    if not quick:
+        for hs in (1, 2):
+            c = digests(hs, n)
+            if c != a:
+                la, lc = a.splitlines(), c.splitlines()
+                diff = [(x, y) for x, y in zip(la, lc) if x != y][:5]
+                print(f"SELFTEST FAILED: digests depend on PYTHONHASHSEED ({hs}):", diff)
+                return 1
+        saved = {}
+        for prop, runs in (("C01", 1500), ("C18", 600), ("C13", 600)):
+            path = os.path.join(HERE, "evidence", f"{prop}.json")
+            saved[prop] = open(path).read() if os.path.exists(path) else None
+            c2 = check_counts(prop, 2, runs)
+            c16 = check_counts(prop, 16, runs)
+            if c2 != c16:
+                print(f"SELFTEST FAILED: {prop} differs between 2 and 16 workers", c2, c16)
+                return 1
+        print("worker-count independence ok (C01, C18, C13)")
+    print(f"selftest ok: {lines} run digests, twice"
+          + ("" if quick else ", and under PYTHONHASHSEED 1 and 2"))
     return 0
 
 
